@@ -138,6 +138,12 @@ def build_designspace(fam, fonts, names=True, filenames=None):
         pending.append(s)
     # the order of the <source> elements is arbitrary in a designspace: the default
     # master need not come first
+    if fam.get("partial_source_locations"):
+        # a <source> may leave out the axes that sit at their default
+        defaults = {ax.name: ax.map_forward(ax.default) for ax in doc.axes}
+        for k, s in enumerate(pending):
+            if k % 2 == 0 or fam["partial_source_locations"] == "all":
+                s.location = {n: v for n, v in s.location.items() if v != defaults.get(n)}
     order = fam.get("source_order")
     if order and sorted(order) == list(range(len(pending))):
         pending = [pending[k] for k in order]
